@@ -166,8 +166,10 @@ def cdf(fam, x, **p):
             zz = np.where(z > 0, z, 1.0)
             return np.where(z > 0, sp.gammainc(_f(p["m"]), zz ** _f(p["c"])), 0.0)
         if fam == "vonmises":
+            # the documented (scipy) convention: beyond mu +- pi the cdf continues periodically, F(x + 2 pi) = F(x) + 1
             t = x - _f(p["mu"])
-            return _vm_cdf_centered(np.clip(t, -math.pi, math.pi), p["kappa"])
+            k = np.floor((t + math.pi) / (2 * math.pi))
+            return k + _vm_cdf_centered(t - 2 * math.pi * k, p["kappa"])
         if fam == "gamma":
             z = (x - _f(p["loc"])) / _f(p["scale"])
             zz = np.where(z > 0, z, 1.0)
